@@ -30,6 +30,8 @@ pub struct Outcome {
     pub capped: bool,
     pub server_addr: SocketAddr,
     pub client_addrs: Vec<SocketAddr>,
+    /// (time, client, new address) of every NAT rebinding
+    pub rebinds: Vec<(u64, usize, SocketAddr)>,
 }
 
 impl Outcome {
@@ -179,15 +181,21 @@ pub fn limits_of(l: &LimitsCfg) -> Limits {
     v
 }
 
+pub type Sockets = Arc<Mutex<Vec<s2n_quic::provider::io::testing::Socket>>>;
+
+thread_local! {
+    /// sockets of the endpoints started in this run, in start order (server, client 0, ...)
+    static SOCKETS: std::cell::RefCell<Option<Sockets>> = const { std::cell::RefCell::new(None) };
+}
+
 fn io_of(handle: &Handle, cfg: &EndpointCfg) -> s2n_quic::provider::io::testing::Io {
     let (base, initial, max) = cfg.mtu;
-    handle
-        .builder()
-        .with_max_mtu(max)
-        .with_base_mtu(base)
-        .with_initial_mtu(initial)
-        .build()
-        .unwrap()
+    let sockets = SOCKETS.with(|s| s.borrow().clone());
+    let mut b = handle.builder().with_max_mtu(max).with_base_mtu(base).with_initial_mtu(initial);
+    if let Some(sockets) = sockets {
+        b = b.on_socket(move |socket| sockets.lock().unwrap().push(socket));
+    }
+    b.build().unwrap()
 }
 
 /// hooks that a check can add to a run
@@ -218,7 +226,7 @@ fn start_server_with<const R: bool>(handle: &Handle, cfg: &EndpointCfg, seed: u6
         .unwrap()
         .with_random(Rand::new(seed))
         .unwrap()
-        .with_connection_id(CidFormat::new(seed, 16, None, true))
+        .with_connection_id(CidFormat::new(seed, if cfg.cid.len == 0 { 16 } else { cfg.cid.len.clamp(4, 20) as usize }, cfg.cid.lifetime_s.map(|s| Duration::from_secs(s.max(60) as u64)), cfg.cid.rotate_handshake))
         .unwrap()
         .with_packet_interceptor(rec)
         .unwrap()
@@ -250,7 +258,7 @@ fn start_client_with<const R: bool>(handle: &Handle, cfg: &EndpointCfg, seed: u6
         .unwrap()
         .with_random(Rand::new(seed))
         .unwrap()
-        .with_connection_id(CidFormat::new(seed, 16, None, true))
+        .with_connection_id(CidFormat::new(seed, if cfg.cid.len == 0 { 16 } else { cfg.cid.len.clamp(4, 20) as usize }, cfg.cid.lifetime_s.map(|s| Duration::from_secs(s.max(60) as u64)), cfg.cid.rotate_handshake))
         .unwrap()
         .with_packet_interceptor(rec)
         .unwrap()
@@ -315,6 +323,8 @@ pub fn run_with(sc: &Scenario, extras: Extras) -> Outcome {
     let capped = Arc::new(Mutex::new(false));
     let addrs: Arc<Mutex<(Option<SocketAddr>, Vec<SocketAddr>)>> = Default::default();
 
+    let sockets: Sockets = Default::default();
+    SOCKETS.with(|s| *s.borrow_mut() = Some(sockets.clone()));
     let mut executor = Executor::new(net, sc.seed);
     let handle = executor.handle().clone();
 
@@ -380,6 +390,27 @@ pub fn run_with(sc: &Scenario, extras: Extras) -> Outcome {
                 });
             }
             addrs.lock().unwrap().1 = client_addrs.clone();
+
+            // NAT rebinding: the client's socket moves to a fresh address
+            for (k, (client, at_ms)) in sc.rebinds.iter().enumerate() {
+                let ci = *client as usize;
+                if ci >= sc.clients.len() {
+                    continue;
+                }
+                let new_addr: SocketAddr = format!("1.7.{}.{}:{}", ci, k + 1, 52000 + k).parse().unwrap();
+                let sockets = sockets.clone();
+                let trace = trace.clone();
+                let at = *at_ms as u64;
+                spawn(async move {
+                    delay(Duration::from_millis(at) + Duration::from_micros(1)).await;
+                    trace.lock().unwrap().addr_client.insert(new_addr, ci);
+                    trace.lock().unwrap().rebinds.push((now_us(), ci, new_addr));
+                    // sockets are registered in start order: server first
+                    if let Some(s) = sockets.lock().unwrap().get(ci + 1) {
+                        s.rebind(new_addr);
+                    }
+                });
+            }
 
             // datagrams that belong to no connection
             for (k, st) in sc.strays.iter().enumerate() {
@@ -450,6 +481,7 @@ pub fn run_with(sc: &Scenario, extras: Extras) -> Outcome {
     let end_us = executor.enter(now_us);
     drop(executor);
 
+    let rebinds = std::mem::take(&mut trace.lock().unwrap().rebinds);
     let recs = std::mem::take(&mut trace.lock().unwrap().recs);
     let net = std::mem::take(&mut net_shared.lock().unwrap().log);
     let app = std::mem::take(&mut *app.borrow_mut());
@@ -458,7 +490,7 @@ pub fn run_with(sc: &Scenario, extras: Extras) -> Outcome {
         let a = addrs.lock().unwrap();
         (a.0.unwrap(), a.1.clone())
     };
-    let out = Outcome { recs, net, app, end_us, capped, server_addr, client_addrs };
+    let out = Outcome { recs, net, app, end_us, capped, server_addr, client_addrs, rebinds };
     if std::env::var("VERIF_DUMP").is_ok() {
         dump(&out);
     }
